@@ -200,7 +200,9 @@ func pipelineSetup(s *rt.Sim, tier string) func() {
 					}
 					all = append(all, b)
 					byIdx[uint64(b.idx)] = b
-					ctx := context.Background()
+					// "no deadline" is ten simulated minutes: a pipeline that has stopped moving must not
+					// keep the submitter (and with it the judgement of the run) waiting for ever
+					ctx, cancelBase := context.WithTimeout(context.Background(), 10*time.Minute)
 					var cancel context.CancelFunc
 					if expiring && chance("op", 1, 2) {
 						ctx, cancel = context.WithTimeout(ctx, oneOf("op", time.Millisecond, 20*time.Millisecond, 200*time.Millisecond))
@@ -211,6 +213,7 @@ func pipelineSetup(s *rt.Sim, tier string) func() {
 					if cancel != nil {
 						cancel()
 					}
+					cancelBase()
 					if b.err != nil && !stopping {
 						rt.Hit("pl.submit-failed")
 						rt.Fault("F14.context-expired")
@@ -222,8 +225,10 @@ func pipelineSetup(s *rt.Sim, tier string) func() {
 						retryB = nil
 						r.retried = true
 						r.inv = rt.Stamp()
-						r.err = p.Submit(context.Background(), retryType, retryData, pcommon.Tip{BlockNumber: uint64(r.idx)})
+						rctx, rcancel := context.WithTimeout(context.Background(), 10*time.Minute)
+						r.err = p.Submit(rctx, retryType, retryData, pcommon.Tip{BlockNumber: uint64(r.idx)})
 						r.ret = rt.Stamp()
+						rcancel()
 						rt.Hit("pl.retried-failed-submission")
 					} else if retryFailed && b.err != nil && !stopping {
 						retryB, retryType, retryData = b, fb.Type, data
@@ -279,7 +284,7 @@ func pipelineSetup(s *rt.Sim, tier string) func() {
 		}
 		// a last drain once every Submit has returned: it covers every accepted block
 		if !stopEarly {
-			ctx, cancel := context.WithTimeout(context.Background(), 10*time.Minute)
+			ctx, cancel := context.WithTimeout(context.Background(), 3*time.Minute)
 			r := &drainRec{inv: rt.Stamp()}
 			r.err = p.WaitForDrain(ctx)
 			r.ret = rt.Stamp()
